@@ -3,6 +3,7 @@
 alarm.  An alarm of a check whose property does not constrain the changed code is a false alarm (`py2lean/SCOPE.md`).
 
     tools/crossrun.py [a b ... | all] [--scratch DIR] [--jobs N] [--props C01,C05,...] [--md]
+    tools/crossrun.py --seeds seeded/C01-m1,seeded/C07-m2,... [...]      (a seeded change: patch.diff + meta.json, owner = meta["breaks"])
 
 The changes (a)-(k) are the ones recorded in `py2lean/SCOPE.md`; `owners` are the properties whose text constrains the changed
 code (they must alarm), `also` are properties that may alarm too because the change really alters behaviour they constrain or
@@ -84,9 +85,16 @@ def cross(mut, props=ALL, scratch='/tmp/crossrun', jobs=6):
     """run the checks `props` against the library copy `mut`; returns {prop: (verdict, why, seconds)}"""
     env = dict(os.environ, ONL_REPO=mut, VERIF_EVIDENCE_DIR=os.path.join(scratch, 'ev'), VERIF_REPLAY_DIR=os.path.join(scratch, 'replays'))
     res = {}
+    # C16 and C17 share Generated/TcpCC.lean, which is linked into the driver: C17 regenerates it, C16 falls back to its pinned copy
+    # when its own proof chain no longer builds over it.  Run concurrently they would rebuild the driver under each other's replay;
+    # they run one after the other, in the order of the property ids, after the rest.
+    seq = [p for p in props if p in ('C16', 'C17')]
     with concurrent.futures.ThreadPoolExecutor(jobs) as ex:
-        for prop, verdict, why, dt in ex.map(lambda p: one(p, env, scratch), props):
+        for prop, verdict, why, dt in ex.map(lambda p: one(p, env, scratch), [p for p in props if p not in seq]):
             res[prop] = (verdict, why, dt)
+    for p in seq:
+        prop, verdict, why, dt = one(p, env, scratch)
+        res[prop] = (verdict, why, dt)
     return res
 
 
@@ -107,18 +115,31 @@ def main():
     for flag in ('--scratch', '--jobs', '--props'):
         if flag in argv:
             skip |= {argv.index(flag), argv.index(flag) + 1}
+    seeds = argv[argv.index('--seeds') + 1].split(',') if '--seeds' in argv else []
+    if seeds:
+        skip |= {argv.index('--seeds'), argv.index('--seeds') + 1}
     labels = [a for i, a in enumerate(argv) if i not in skip and not a.startswith('--')]
-    if not labels or labels == ['all']:
+    if (not labels and not seeds) or labels == ['all']:
         labels = list(CHANGES)
+    labels += seeds
     mut = os.path.join(scratch, 'mut')
     bad = 0
     table = []
     for lab in labels:
-        rel, old, new, occ, owners, also, what = CHANGES[lab]
         if os.path.exists(mut):
             shutil.rmtree(mut)
         shutil.copytree(REPO, mut, ignore=shutil.ignore_patterns('.git'))
-        apply_change(mut, rel, old, new, occ)
+        if lab in CHANGES:
+            rel, old, new, occ, owners, also, what = CHANGES[lab]
+            apply_change(mut, rel, old, new, occ)
+        else:
+            meta = json.load(open(os.path.join(lab, 'meta.json')))
+            owners, also, what = [meta.get('breaks') or meta.get('property')], [], 'seeded change ' + os.path.basename(lab.rstrip('/'))
+            r = subprocess.run(['patch', '-s', '-p1', '--fuzz=3', '-i', os.path.abspath(os.path.join(lab, 'patch.diff'))], cwd=mut, capture_output=True, text=True)
+            if r.returncode != 0:
+                print(f'{lab}: patch does not apply: {r.stderr[:200]}')
+                continue
+            lab = os.path.basename(lab.rstrip('/'))
         res = cross(mut, props, scratch, jobs)
         alarms = [p for p in props if res[p][0] != 'OK']
         print(f'({lab}) {what}: owners {owners}; alarmed: {alarms}')
